@@ -40,7 +40,7 @@ prop("C19", run="^TestC19", level="exploration",
      quick=(1, 20000, 300), thorough=(16, 200000, 1800),
      rule="every constant declared in primitive/constants.go (read from the working tree) plus full 8/16-bit domains, "
           "32-bit neighbourhoods / all 2^32 (thorough), near-miss and rapid-generated strings, every asserted cell of the "
-          "spec capability table, all 256 version numbers; every case is non-trivial (each is one (type,value) or "
+          "spec capability table, all 256 version numbers; the version-list helpers (Supported*ProtocolVersions and the four comparisons x 6 pivots) against the spec list, three rounds with the caller overwriting every slice it was given, followed by the 8-bit IsSupported sweep; every case is non-trivial (each is one (type,value) or "
           "(predicate,version) obligation); distinct by (type,value) - enumerated sub-spaces are distinct by construction",
      assumptions=["capability table typed in from specs/*.spec (DESIGN.md Appendix A); '?' cells not asserted",
                   "constants are read from primitive/constants.go with go/types; a constant type without a harness entry is reported in notes, not checked"],
@@ -155,7 +155,7 @@ prop("C14", run="^TestC14", level="exploration",
 prop("C17", run="^TestC17", level="exploration",
      quick=(16, 40, 900), thorough=(16, 2500, 7200),
      rule="every type with a deep-copy operation (66 registry entries, checked against the DeepCopy* receivers found in the working tree) x values filled reflectively from rapid draws (all exported fields; pointers non-nil 90%; slices/maps nil, empty or 1..3 elements, "
-          "slices with spare capacity; interface fields holding random registry members, nested to depth ~4) x every available operation (DeepCopy, DeepCopyInto, DeepCopyMessage, DeepCopyDataType). Oracle: reflect.DeepEqual(copy, original); every mutable location reachable "
+          "slices with spare capacity, byte strings of 65535..200000 bytes now and then; interface fields holding random registry members, nested to depth ~4) x every available operation (DeepCopy, DeepCopyInto a zero value, DeepCopyInto a shallow copy of the source, DeepCopyMessage, DeepCopyDataType). Oracle: reflect.DeepEqual(copy, original); every mutable location reachable "
           "from the copy (slice elements first/last, append within capacity, nil-ing elements, map replace/delete/insert, pointer targets, nested structs; up to 400 mutations per value) is mutated while a full dump of the original must not change; then the reverse. "
           "Non-trivial = the value has at least one pointer/slice/map populated; distinct by (type, value hash); TestC17AllTypes runs every registry type each run",
      assumptions=["datatype.PrimitiveType has only an unexported field and is used through shared exported singletons: not mutable through the API, only equality is checked"],
@@ -184,7 +184,8 @@ prop("C09", run="^TestC09", level="exploration",
           "ALL histories of length 4 (thorough 6) over a 12-action alphabet for N=1,2,3; rapid-generated histories of 1..60 (10%: 200..2000) actions for N in {1,2,3,10,100,1000,32767}; concurrent rounds of 2..8 senders x 1..30 sends (0/30/100% caller-chosen ids from a small colliding set) + a responder, "
           "with rapid-generated schedules (yield / sleep / bounded rendez-vous) at the hook points between the duplicate check and the registration and after the response lookup; per-id counters of accepted-unanswered requests, conservation after drain. "
           "Final responses take four forms (plain result, non-fatal error, last continuous page without / with a paging state). Socket level (worker-isolated): a real client connection with MaxInFlight=N in 1..12 and an independent MaxPending in 1..12 against a raw server peer, all versions x compression: N managed sends accepted with distinct ids in 1..N as seen ON THE WIRE, one more refused without blocking, "
-          "0..3 rounds answering a generated subset then refilling exactly that many, drain, N again. "
+          "0..3 rounds answering a generated subset then refilling exactly that many, drain, N again; 1 case in 12 under back-pressure (N in {1025,1500,2500}, 4-16 KiB requests, the peer starts reading only after all N were accepted). "
+          "Requests the library completed early (more than MaxPending unread pages, or a 40 ms timeout) followed by their final responses: nothing stays registered and N new sends succeed. "
           "Non-trivial = history contains a refusal, an id reuse or a final response followed by further actions / any concurrent round; distinct by (N, history) or (round parameters, schedule)",
      assumptions=["mixing managed and caller-chosen ids on one connection is 'not recommended' by the doc comment but is inside the property's quantifier",
                   "acceptance of a send is only REQUIRED in the all-answered state (N sends must succeed); refusals while fewer than N are unanswered are allowed"],
@@ -206,8 +207,8 @@ prop("C15", run="^TestC15", level="exploration",
 prop("C10", run="^TestC10", level="exploration",
      quick=(8, 120, 900), thorough=(16, 5000, 7200),
      rule="shim level: ALL answer orders for k=1..5 outstanding requests (153 orders, each with a spurious response in the middle); rapid-generated interleavings for k<=12 with multi-page answers of 1..MaxPending pages (complete or cut short) and spurious responses, consumers reading after all deliveries. "
-          "Socket level (worker-isolated): library client x raw server peer, every version incl. v5 segments x compression, k<=10 tagged requests from 1..4 concurrent senders, answered in a generated order interleaved with EVENT envelopes (stream id -1, an unused id, or the id of a request still awaiting its answer: an EVENT is recognised by its opcode) and responses for an unused stream id, responses batched into few segments or sent one by one, multi-page answers on DSE versions. "
-          "Oracle: per request exactly its tagged frames in arrival order, channel closed after the last page with Err()==nil; events on the event channel and through handlers, in order, nothing else there; unknown-id responses change nothing. Non-trivial = >=2 outstanding requests or multi-page / interleaved extras; distinct by (k, pages, order) / session spec",
+          "Socket level (worker-isolated): library client x raw server peer, every version incl. v5 segments x compression, k<=10 tagged requests from 1..4 concurrent senders, answered in a generated order interleaved with EVENT envelopes (stream id -1, an unused id, or the id of a request still awaiting its answer: an EVENT is recognised by its opcode) and responses for an unused stream id, single-frame answers that are a READY (header-only envelope) for 1 request in 5, responses batched into few segments or sent one by one, multi-page answers on DSE versions. "
+          "Event load: MaxInFlight (= event queue capacity) 1..4, up to 5 events beyond it pushed before a barrier response while nobody drains the event channel: every event reaches the handlers in order, the channel holds an in-order subsequence. Oracle: per request exactly its tagged frames in arrival order, channel closed after the last page with Err()==nil; events on the event channel and through handlers, in order, nothing else there; unknown-id responses change nothing. Non-trivial = >=2 outstanding requests or multi-page / interleaved extras; distinct by (k, pages, order) / session spec",
      assumptions=["multi-page answers never exceed MaxPending undelivered pages (beyond that the request is failed by design)"],
      text="Exhaustive small permutations plus randomised interleavings against a per-request expected-sequence oracle, at handler level and over real sockets.",
      note="Trusted: the raw peer and the tag scheme (tag carried in the response message content).",
@@ -219,7 +220,8 @@ prop("C16", run="^TestC16", level="fault_enumeration",
           "(B) scripted sessions {connect, handshake, send K<=3 requests, answer some, one non-final page in progress, 0..3 receivers blocked in Receive/ReceiveEvent, optionally a goroutine hammering Send} against a library server or a raw TCP peer, with a fault {client Close, concurrent double Close, "
           "server-connection Close, server Close, context cancel, peer TCP close/reset} injected after each of the 5 step boundaries: the full (peer x fault x boundary x version in {4,5,DSE2}) matrix every run, plus rapid-generated sessions, plus rapid-generated schedules (yield / sleep / wait-until-point-reached, bounded 300 ms) "
           "at 13 hook points of the client package. (C) faults in the MIDDLE of the handshake: a library server connection blocked in AcceptHandshake (raw client silent, after OPTIONS/SUPPORTED, or after STARTUP/AUTHENTICATE) or a library client blocked in InitiateHandshake (raw server silent after STARTUP or after AUTH_RESPONSE) x {peer FIN, peer RST, own Close, server Close, context cancel} x version x auth: "
-          "the blocked call returns a non-nil error, Close returns, no goroutine survives. Worker-isolated. Oracle within 10 s: every accepted unanswered request has its channel closed, IsDone() and Err()!=nil; blocked receivers return; later Send fails; Close returns (twice, concurrently); no goroutine of the client package survives; no panic. "
+          "the blocked call returns a non-nil error, Close returns, no goroutine survives. (D) timeout clause on a real connection: ReadTimeout drawn independently of ConnectTimeout (150-600 ms vs 20-60 s with a silent raw peer: the request fails with a timeout after >= 80 % and < read timeout + 8 s; 3-4 s vs 250-400 ms with an answer at 20-30 %: it is delivered). "
+          "After the handler is closed IsDone/Err/Incoming of completed requests still return. Worker-isolated. Oracle within 10 s: every accepted unanswered request has its channel closed, IsDone() and Err()!=nil; blocked receivers return; later Send fails; Close returns (twice, concurrently); no goroutine of the client package survives; no panic. "
           "Non-trivial = the fault lands with an unanswered request, a blocked receiver or before the script's end; distinct by session spec",
      assumptions=["all time bounds are generous upper bounds (10 s against sub-second behaviour); only 'still not done after the bound' or a panic counts",
                   "the window inside Send's select statement (operand evaluated, channel closed by Close, then send) has no hook point and is only reachable by stress repetition"],
@@ -230,7 +232,7 @@ prop("C16", run="^TestC16", level="fault_enumeration",
 prop("C18", run="^TestC18", level="exploration", race=True,
      quick=(8, 20, 1200), thorough=(16, 1500, 10800),
      rule="rounds of 2..16 goroutines x 1..12 generated work items x 1..6 repeats on SHARED instances: one frame.RawCodec per compressor {none, LZ4, Snappy}, one segment.Codec per {none, LZ4}, the package-level message codecs, the datacodec singletons and cached nested codecs (NewCodec results shared by type), "
-          "the compressor values. Work items: frame encode+decode, raw paths (ConvertToRawFrame, EncodeRawFrame, DecodeRawFrame, ConvertFromRawFrame, DecodeHeader+DiscardBody), segment encode+decode, message Encode/EncodedLength/Decode, CQL value Encode/Decode through a drawn representation, compress+decompress in both LZ4 formats and Snappy; per-goroutine yields drawn by rapid; all goroutines released from one barrier. "
+          "the compressor values. Half of the rounds are cold starts (the sequential reference results are computed AFTER the concurrent phase, so per-type caches and pools are first touched concurrently). Work items: UDT values written from / read into Go struct types that did not exist before, compressed frames with a corrupt body (refused) on the same shared codec, decoded segment payloads held across yields, frame encode+decode, raw paths (ConvertToRawFrame, EncodeRawFrame, DecodeRawFrame, ConvertFromRawFrame, DecodeHeader+DiscardBody), segment encode+decode, message Encode/EncodedLength/Decode, CQL value Encode/Decode through a drawn representation, compress+decompress in both LZ4 formats and Snappy; per-goroutine yields drawn by rapid; all goroutines released from one barrier. "
           "Oracle: each concurrent result == the result of the same call made sequentially beforehand (digest of bytes, or canonical frame / abstract value where map order is free); built with -race, any race report fails the run. Every round is non-trivial (>= 2 goroutines on shared instances); distinct by round parameters and item kinds",
      assumptions=["interleavings are sampled by the Go scheduler (no hook points in the codec packages); the race detector's happens-before analysis is what exposes a shared scratch buffer without the exact overlap"],
      text="Randomised concurrent stress under the race detector with result comparison against sequential execution.",
